@@ -43,7 +43,8 @@ PROPS = {
         'verus': ['u_polyeval', 'u_fme_ident', 'u_fme_lemmas', 'u_polyeval_fme'],
         'kani': {'quick': [{'set': 'c01', 'jobs': 8, 'timeout': 2400, 'extra': ['--solver', 'kissat'],
                             'harnesses': [H(f'c01_polyn_{n}', 'poly', f'length {n}; integer-valued coefficients in [-100,100]; x in {{0, 1, -1, 2}}', False, PN) for n in (0, 1, 2, 3, 4)] +
-                                         [H(f'c01_polyn_pm1_{n}', 'poly', f'length {n}; integer-valued coefficients in [-100,100]; x in {{0, 1, -1}}', False, PN) for n in (5, 6, 7)]}],
+                                         [H(f'c01_polyn_pm1_{n}', 'poly', f'length {n}; integer-valued coefficients in [-100,100]; x in {{0, 1, -1}}', False, PN) for n in (5, 6, 7)] +
+                                         [H('c01_polyn_impulse_24', 'poly', 'length 24; one integer-valued coefficient at a symbolic position, the others zero; x in {1, -1}', False, PN)]}],
                  'thorough': [{'set': 'c01', 'jobs': 8, 'timeout': 9000, 'extra': ['--solver', 'kissat'],
                                'harnesses': [H(f'c01_polyn_{n}', 'poly', f'length {n}; integer-valued coefficients in [-100,100]; x in {{0, 1, -1, 2}}', False, PN) for n in (0, 1, 2, 3, 4, 5, 6, 7, 8)] +
                                             [H(f'c01_polyn_pm1_{n}', 'poly', f'length {n}; integer-valued coefficients in [-100,100]; x in {{0, 1, -1}}', False, PN) for n in (9, 10, 11, 12)] +
